@@ -283,6 +283,58 @@ func checkEntrySSA(c *core.Ctx, r *core.Rule, key string, fn *ssa.Function) {
 			}
 		}
 	}
+	// the "arguments are escaped" flag handed to the handlers may be true only where the matched text is the output of
+	// NormalizeEscapedPath: every value the flag can take other than the constant false is computed under the ok edge of
+	// that call (with an empty RawPath the text is the decoded URL.Path and a '%' in it is a literal)
+	{
+		var okBlocks []*ssa.BasicBlock
+		for _, call := range core.Calls(fn) {
+			if !strings.HasSuffix(core.CalleeName(call.Common()), "uri.NormalizeEscapedPath") {
+				continue
+			}
+			if v, ok := call.(ssa.Value); ok && v.Referrers() != nil {
+				for _, ref := range *v.Referrers() {
+					if ex, ok := ref.(*ssa.Extract); ok && ex.Index == 1 {
+						okBlocks = append(okBlocks, core.EdgeBlocks(ex, true)...)
+					}
+				}
+			}
+		}
+		checked := map[ssa.Value]bool{}
+		for _, f := range core.AllFuncs(fn) {
+			for _, call := range core.Calls(f) {
+				cal := call.Common().StaticCallee()
+				if cal == nil || !strings.HasPrefix(cal.Name(), "handle") || !strings.HasSuffix(cal.Name(), "Request") {
+					continue
+				}
+				for _, a := range call.Common().Args {
+					if bt, ok := a.Type().Underlying().(*types.Basic); !ok || bt.Kind() != types.Bool || checked[a] {
+						continue
+					}
+					checked[a] = true
+					for _, leaf := range core.PhiClosure(a) {
+						if k, ok := leaf.(*ssa.Const); ok && k.Value != nil && k.Value.Kind() == constant.Bool && !constant.BoolVal(k.Value) {
+							continue
+						}
+						in, ok := leaf.(ssa.Instruction)
+						under := false
+						if ok {
+							for _, ob := range okBlocks {
+								if ob == in.Block() || ob.Dominates(in.Block()) {
+									under = true
+								}
+							}
+						}
+						if under {
+							r.Pass(key + ": the escaped flag is computed under the ok edge of NormalizeEscapedPath")
+						} else {
+							r.Fail(key+":escaped-flag", c.Pos(leaf.Pos()), "the \"arguments are escaped\" flag handed to the handlers can be true although the matched text is the decoded URL.Path (empty RawPath): a literal '%' in a path value (sent as %25) is percent-decoded a second time, \"50%2541\" arrives as \"50A\" and \"50%25\" is answered 400, while FindPath reports the right values")
+						}
+					}
+				}
+			}
+		}
+	}
 	// the configured prefix is looked at in cutPrefix only: any other comparison with it sees text that cutPrefix's
 	// input discipline (decoded path or normalised RawPath) does not cover
 	for _, f := range core.AllFuncs(fn) {
